@@ -22,8 +22,16 @@ pub struct DivPt {
     /// complex only: the leading coefficient of the dividend (of q0 for exact multiples) is purely imaginary
     #[serde(default)]
     dividend_lead_i: bool,
+    /// 0: as generated, default zero tolerance 1e-10.  1: the dividend's leading coefficient is 2^-30 (9.3e-10: small, but
+    /// above the default tolerance - it may not be dropped, not even after scaling by 1/50).  2: the dividend carries a
+    /// tolerance of 2^-46 (1.4e-14) and a leading coefficient of 2^-36 (1.5e-11: below the default tolerance, far above
+    /// its own).  3: the dividend carries a tolerance of 2^-10 and a leading coefficient of 2^-12 (may be dropped: the
+    /// defect then stays within that tolerance)
+    #[serde(default)]
+    small: u8,
 }
 pub struct Division;
+const SMALL: [&str; 4] = ["", " dividend lead 2^-30", " dividend tolerance 2^-46, lead 2^-36", " dividend tolerance 2^-10, lead 2^-12"];
 
 fn div_point<N: Fld>(p: &DivPt) -> Outcome {
     let mut o = Outcome::new();
@@ -48,10 +56,19 @@ fn div_point<N: Fld>(p: &DivPt) -> Outcome {
         eq0.im[p.m] = 2 << 10;
     }
     let (dividend_exact, d) = if p.multiple { (ed.mul(&eq0), ed.to_c()) } else { (eq0.clone(), ed.to_c()) };
-    let a = dividend_exact.to_c();
-    let pa: Polynomial<N> = mk(&a);
+    let mut a = dividend_exact.to_c();
+    let mut tol_a = 1e-10;
+    if p.small > 0 {
+        let top = a.len() - 1;
+        a[top] = C::new([0.0, 2f64.powi(-30), 2f64.powi(-36), 2f64.powi(-12)][p.small as usize], 0.0);
+        tol_a = [1e-10, 1e-10, 2f64.powi(-46), 2f64.powi(-10)][p.small as usize];
+    }
+    let mut pa: Polynomial<N> = mk(&a);
+    if p.small >= 2 {
+        pa.set_tolerance(tol_a).unwrap();
+    }
     let pd: Polynomial<N> = mk(&d);
-    let ctx = || format!("dividend deg {} ({}) / divisor deg {} lead {}{} pattern {} {}", a.len() - 1, if p.multiple { "exact multiple" } else { "pattern" }, p.n, LEADS[p.lead], if p.lead_i { "i" } else { "" }, PATTERNS[p.pat % 4], N::NAME);
+    let ctx = || format!("dividend deg {} ({}{}) / divisor deg {} lead {}{} pattern {} {}", a.len() - 1, if p.multiple { "exact multiple" } else { "pattern" }, SMALL[p.small as usize], p.n, LEADS[p.lead], if p.lead_i { "i" } else { "" }, PATTERNS[p.pat % 4], N::NAME);
     match vcore::guard(|| pa.divide(&pd)) {
         Err(m) => o.viol("polynomial::divide", "no-panic", format!("{}: {}", ctx(), m)),
         Ok(Err(e)) => o.viol("polynomial::divide", "ok-for-nonzero-divisor", format!("{}: Err({})", ctx(), e)),
@@ -61,7 +78,7 @@ fn div_point<N: Fld>(p: &DivPt) -> Outcome {
             let len = a.len().max(qd.len()).max(r.len());
             let get = |v: &[C], k: usize| if k < v.len() { v[k] } else { C::new(0.0, 0.0) };
             let defect = (0..len).map(|k| (get(&a, k) - get(&qd, k) - get(&r, k)).norm()).fold(0.0, f64::max);
-            let bound = 32.0 * EPS * (a.len() as f64) * (norm1(&q) * norm1(&d) + norm1(&a)) + 1e-10;
+            let bound = 32.0 * EPS * (a.len() as f64) * (norm1(&q) * norm1(&d) + norm1(&a)) + tol_a;
             o.metric("reconstruction-defect/bound", defect / bound);
             if !(defect <= bound) {
                 o.viol("polynomial::divide", "dividend=quotient*divisor+remainder", format!("{}: defect {:e} bound {:e}; q={:?} r={:?}", ctx(), defect, bound, &q[..q.len().min(4)], &r[..r.len().min(4)]));
@@ -74,7 +91,7 @@ fn div_point<N: Fld>(p: &DivPt) -> Outcome {
                 }
                 for k in 0..a.len().max(q.len()) {
                     let want = get(&a, k) / d[0];
-                    if !((get(&q, k) - want).norm() <= 4.0 * EPS * want.norm() + 1e-10 / d[0].norm()) {
+                    if !((get(&q, k) - want).norm() <= 4.0 * EPS * want.norm() + tol_a / d[0].norm()) {
                         o.viol("polynomial::divide", "constant-divisor-scales", format!("{}: power {} got {} want {}", ctx(), k, get(&q, k), want));
                         break;
                     }
@@ -86,7 +103,7 @@ fn div_point<N: Fld>(p: &DivPt) -> Outcome {
                 o.viol("polynomial::divide", "exact-multiple-has-zero-remainder", format!("{}: remainder {:?} (bound {:e})", ctx(), &r[..r.len().min(4)], bound));
             }
             let qlen = q.len();
-            o.sig = format!("{}|qdeg{}|rdeg{}|{}|lead{}", if a.len() - 1 < p.n { "divisor-higher" } else if p.n == 0 { "constant" } else if p.multiple { "multiple" } else { "generic" }, if qlen <= 1 { 0 } else if qlen < 10 { 1 } else { 2 }, if rzero { "zero".to_string() } else { format!("{}", (rdeg + 1 == p.n) as u8) }, N::NAME, p.lead);
+            o.sig = format!("{}|qdeg{}|rdeg{}|{}|lead{}", if a.len() - 1 < p.n { "divisor-higher" } else if p.n == 0 { "constant" } else if p.multiple { "multiple" } else { "generic" }, if qlen <= 1 { 0 } else if qlen < 10 { 1 } else { 2 }, if rzero { "zero".to_string() } else { format!("{}", (rdeg + 1 == p.n) as u8) }, N::NAME, p.lead) + &format!("|s{}", p.small);
         }
     }
     o
@@ -97,7 +114,7 @@ impl Check for Division {
         "division"
     }
     fn rule(&self) -> String {
-        "dividend degree 0..=40 x divisor degree 0..=20 x 4 patterns x {f64, Complex<f64>} x divisor leading coefficient {0.1,1,-3,50} (complex: also times i) x {pattern dividend, exact multiple divisor*q0} (complex: also with a purely imaginary leading coefficient of the dividend); signature = (shape class, quotient length class, remainder class, field, lead)".into()
+        "dividend degree 0..=40 x divisor degree 0..=20 x 4 patterns x {f64, Complex<f64>} x divisor leading coefficient {0.1,1,-3,50} (complex: also times i) x {pattern dividend, exact multiple divisor*q0} (complex: also with a purely imaginary leading coefficient of the dividend), and pattern dividends with a small leading coefficient against their own zero tolerance (2^-30 at the default 1e-10; 2^-36 at a tolerance of 2^-46; 2^-12 at a tolerance of 2^-10); signature = (shape class, quotient length class, remainder class, field, lead)".into()
     }
     fn axes(&self, t: Tier) -> Value {
         json!({"dividend_degree": t.pick("0..=40 step pattern (0..=12, 15, 20, 27, 33, 40)", "0..=40"), "divisor_degree": t.pick("0..=8, 12, 20", "0..=20"), "patterns": &PATTERNS[..4], "leads": LEADS})
@@ -119,9 +136,15 @@ impl Check for Division {
                                     if multiple && m + n > 40 {
                                         continue;
                                     }
-                                    v.push(DivPt { m, n, pat, complex, lead, lead_i, multiple, dividend_lead_i: false });
+                                    v.push(DivPt { m, n, pat, complex, lead, lead_i, multiple, dividend_lead_i: false, small: 0 });
                                     if complex && pat < 2 && lead == 1 {
-                                        v.push(DivPt { m, n, pat, complex, lead, lead_i, multiple, dividend_lead_i: true });
+                                        v.push(DivPt { m, n, pat, complex, lead, lead_i, multiple, dividend_lead_i: true, small: 0 });
+                                    }
+                                    // small leading coefficients of the dividend against its own zero tolerance
+                                    if !multiple && m >= 1 && pat < 2 {
+                                        for small in 1..=3u8 {
+                                            v.push(DivPt { m, n, pat, complex, lead, lead_i, multiple, dividend_lead_i: false, small });
+                                        }
                                     }
                                 }
                             }
@@ -136,7 +159,7 @@ impl Check for Division {
         if p.complex { div_point::<C>(p) } else { div_point::<f64>(p) }
     }
     fn required(&self, _t: Tier) -> Vec<&'static str> {
-        vec!["divisor-higher|", "constant|", "multiple|qdeg2|rdegzero|c64", "generic|qdeg2|rdeg1|f64"]
+        vec!["divisor-higher|", "constant|", "multiple|qdeg2|rdegzero|c64", "generic|qdeg2|rdeg1|f64", "constant|&&|s1", "generic|&&|s2", "generic|&&|s3"]
     }
 }
 
